@@ -156,6 +156,27 @@ def step (st : St) (line : String) : St × List String :=
             | none => "MISMATCH undecodable-reply"
             | some its => if Wire.textMatches cmd exp its then "ok" else s!"MISMATCH expected {soutStr exp}"
         (st', [("oracle " ++ verdict).replace "\n" " "])
+  | ["fn", "chunkSize", k] =>
+    let (d, f) := Chunked.sizes k.toNat!
+    (st, [s!"{d} {f}"])
+  | ["fn", "chunkKey", key, i] => (st, [Bytes.toHex (Chunked.chunkKey (unhex key) i.toNat!)])
+  | ["fn", "metaKey", key] => (st, [Bytes.toHex (Chunked.metaKey (unhex key))])
+  | ["fn", "sliceIdx", cs, i, len] =>
+    let (a, b) := Gen.chunkSliceIndices (cs.toNat! : Int) (i.toNat! : Int) (len.toNat! : Int)
+    (st, [s!"{a} {b}"])
+  | ["fn", "exptime", now, ttl] =>
+    let (e, x) := Gen.exptime (now.toNat! : Int) (BitVec.ofNat 32 ttl.toNat!)
+    (st, [s!"{e.toNat} {x}"])
+  | ["fn", "numChunks", len, ds] =>
+    (st, [s!"{Gen.numChunksExpr (len.toNat! : Int) (BitVec.ofNat 32 ds.toNat!)}"])
+  | ["fn", "bucket", n] => (st, [s!"{(Gen.getBucket (BitVec.ofNat 64 n.toNat!)).toNat}"])
+  | ["fn", "lzcnt", n] =>
+    (st, [s!"{(Gen.lzcntPortable (BitVec.ofNat 64 n.toNat!)).toNat} {(lzcntModel (BitVec.ofNat 64 n.toNat!)).toNat}"])
+  | ["fn", "lzcntasm", n, undef] =>
+    (st, [match Metrics.runFn Gen.lzcntAsm (BitVec.ofNat 64 undef.toNat!) (BitVec.ofNat 64 n.toNat!) with
+          | some v => s!"{v.toNat}"
+          | none => "stuck"])
+  | ["fn", "stripe", bits, key] => (st, [s!"{stripeOf bits.toNat! (unhex key)}"])
   | "dump" :: tier :: keys =>
     let t := tierOf tier
     let s := st.run.w.get t
